@@ -467,5 +467,18 @@ class Built:
             self.caches.append((f"ds{did}/{tag}", new.cache))
 
 
+class BuildFailed(Exception):
+    """Constructing a legal expression graph raised: nothing about its evaluation can hold (reported by lvf.main)."""
+
+    def __init__(self, program, error):
+        super().__init__(f"{type(error).__name__}: {error}")
+        self.program, self.error = program, error
+
+
 def build(program, log=None, cache_factory=None, mutate_args=False):
-    return Built(program, log, cache_factory, mutate_args=mutate_args)
+    try:
+        return Built(program, log, cache_factory, mutate_args=mutate_args)
+    except RecursionError:
+        raise
+    except Exception as e:  # noqa: BLE001
+        raise BuildFailed(copy.deepcopy(program), e) from e
